@@ -194,6 +194,19 @@ def check_history(c):
     b, w, ck = c["buckets"], c["window"], c["chklen"]
     obj = guard(TLSH, b, w, ck)
     for i, (data, force) in enumerate(c["calls"]):
+        if force in ("update", "final", "from_hash", "digest", "distance"):
+            # other public uses of the same object between two one-shot digests: not judged here, the next digest is
+            if force == "update":
+                attempt(obj.update, data)
+            elif force == "final":
+                attempt(obj.final, data, True)
+            elif force == "digest":
+                attempt(obj.digest)
+            else:
+                d = R.tlsh_model(data, b, w, ck, True)
+                if d is not None:
+                    attempt(obj.from_hash, d) if force == "from_hash" else attempt(obj.distance_to, d)
+            continue
         st_, got = attempt(obj, data, force)
         exp = R.tlsh_model(data, b, w, ck, force)
         if st_ == "exc":
@@ -203,8 +216,10 @@ def check_history(c):
 
 
 def history_strategy(tier):
-    call = st.tuples(data_strategy("quick"), st.booleans())
-    return st.builds(lambda cfg, calls: {"buckets": cfg[0], "window": cfg[1], "chklen": cfg[2], "calls": tuple(calls)},
+    call = st.tuples(data_strategy("quick"), gen.pick((3, st.just(True)), (2, st.just(False)),
+                                                     (2, st.sampled_from(["update", "final", "from_hash", "digest", "distance"]))))
+    return st.builds(lambda cfg, calls: {"buckets": cfg[0], "window": cfg[1], "chklen": cfg[2],
+                                         "calls": tuple(calls) + ((bytes(range(256)) * 2, True),) * isinstance(calls[-1][1], str)},
                      st.sampled_from(CONFIGS), st.lists(call, min_size=2, max_size=4))
 
 
@@ -227,7 +242,9 @@ FACETS = [
           nontrivial=lambda c: len(c["data"]) >= 3, classify=lambda c: ("default target" if c["target"] is None else "target given", "len<5" if len(c["data"]) < 5 else "len>=5"),
           rule="targets {default,0,1,17,53,128,255,uniform}, data 0..400 bytes: digest == model (32 bytes); distance == Hamming distance, symmetric, 0 on equal"),
     Facet("tlsh-reused-object", check_history, strategy=history_strategy, budget={"quick": 400, "thorough": 10000}, shards={"quick": 16, "thorough": 32},
-          nontrivial=lambda c: True, classify=lambda c: ("buckets=%d" % c["buckets"],),
-          rule="2..4 inputs (hashable and unhashable mixed) through ONE TLSH object"),
+          nontrivial=lambda c: True,
+          classify=lambda c: ("buckets=%d" % c["buckets"],) + tuple(sorted(set(f for _, f in c["calls"] if isinstance(f, str)))),
+          rule="2..5 calls on ONE TLSH object: one-shot digests (hashable and unhashable inputs mixed) interleaved with update / final / digest / "
+               "from_hash / distance_to calls; every one-shot digest is judged"),
 ]
 WEIGHT = {"tlsh-random": 8, "tlsh-configurations": 5}
